@@ -52,6 +52,7 @@ def qe(v):
     return (f, Fraction(0))
 
 
+USES_TRANSLATOR = True
 TWIN_FAIL = []
 
 
